@@ -145,6 +145,10 @@ def _is_tag_only_line(line: str) -> bool:
     return starts_tag and ends_tag
 
 
+# A fenced code block delimiter line, possibly inside block quotes: the fence and the rest.
+_fence_line_re: re.Pattern[str] = re.compile(r"^[ ]{0,3}(?:>[ ]?)*[ ]{0,3}(`{3,}|~{3,})(.*)$")
+
+
 def preprocess_tag_block_spacing(text: str) -> str:
     """
     Preprocess text to ensure proper blank lines around block content within tags.
@@ -178,9 +182,27 @@ def preprocess_tag_block_spacing(text: str) -> str:
     if not has_tag_only_lines:
         return text
 
+    # Lines inside fenced code blocks are code, not tags or lists: never insert anything there.
+    open_fence = ""
+    in_code = [False] * len(lines)
+    for i, line in enumerate(lines):
+        fence_match = _fence_line_re.match(line)
+        if open_fence:
+            in_code[i] = True
+            if (
+                fence_match
+                and fence_match.group(1)[0] == open_fence[0]
+                and len(fence_match.group(1)) >= len(open_fence)
+                and not fence_match.group(2).strip()
+            ):
+                open_fence = ""
+        elif fence_match:
+            open_fence = fence_match.group(1)
+            in_code[i] = True
+
     for i, line in enumerate(lines):
         # Check if we need to add a blank line BEFORE this line
-        if i > 0:
+        if i > 0 and not (in_code[i] and in_code[i - 1]):
             prev_line = lines[i - 1]
             prev_is_empty = prev_line.strip() == ""
 
